@@ -564,8 +564,8 @@ func runFD04(p *Prog, r *RuleRun) {
 						used = true
 					}
 				}
-				if !used {
-					continue
+				if !used || !parsesFrameHeaders(fn) {
+					continue // not a frame scan (e.g. a chunked read of a known byte range)
 				}
 				n++
 				key := funcDisplay(fn) + ":scan-step"
@@ -613,6 +613,34 @@ func runFD04(p *Prog, r *RuleRun) {
 	if n == 0 {
 		r.Fail("scan-loops", "?", "no frame scan loop (ReadAt at a loop-carried offset) found in the recovery/dump paths")
 	}
+}
+
+// parsesFrameHeaders: does fn decode frame headers (calls a function returning the in-memory frame header type)?
+func parsesFrameHeaders(fn *ssa.Function) bool {
+	return bodyHas(fn, func(ins ssa.Instruction) bool {
+		c, ok := ins.(*ssa.Call)
+		if !ok || c.Call.StaticCallee() == nil {
+			return false
+		}
+		rs := c.Call.StaticCallee().Signature.Results()
+		if rs.Len() != 2 || !isErrorType(rs.At(1).Type()) {
+			return false
+		}
+		fs := structFields(rs.At(0).Type())
+		if len(fs) != 3 {
+			return false
+		}
+		n8, n32 := 0, 0
+		for _, f := range fs {
+			switch f.Type().String() {
+			case "uint8", "byte":
+				n8++
+			case "uint32":
+				n32++
+			}
+		}
+		return n8 == 1 && n32 == 2
+	})
 }
 
 // ---------------------------------------------------------------- FD-05
